@@ -605,6 +605,8 @@ package libinjection
 //@   ensures  [C06] @reference_ascii_fold (exists j in [0, len(key)): key[j] >= 128) ==> result == 0
 //@   ensures  [C01] @fp3 result == sqliTokenTypeFingerprint && len(key) == 3 && key[0] < 128 && key[1] < 128 && key[2] < 128 ==> up(key[2]) == 'C' || up(key[2]) == 'U'
 //@   cost     <= 4 * len(key) + 6
+//@   ensures  [C14] @no_plain_fp result == sqliTokenTypeFingerprint ==>
+//@                 (exists j in [0, len(key)): key[j] >= 128) || (exists j in [1, len(key)): up(key[j]) != 'N' && key[j] != '1')
 
 // ---- C18 oracle: where a quoted literal ends.
 // bsRunA(a, lo, j): number of consecutive backslashes ending just before absolute index j, not going below lo
@@ -644,6 +646,42 @@ package libinjection
 //@   loop 1 decreases length - i
 //@   cost     <= result
 //@   loop 1 invariant [C09] $cost <= i
+
+// ---- C14: plain words and numbers. The hypothesis PLAIN(in) is purely about the input and the table:
+//   every byte is a letter, digit, '_' or space; every maximal space-free run either consists of digits or
+//   starts with a letter/'_'; no such word (when shorter than 32 bytes) is a table key (KWU == 0); and no
+//   two words of the input, clipped to 31 bytes and joined by a space, form a table key (NOPAIR, whose meaning is
+//   given by merge's `defines` clause: on such an input merge never joins two plain tokens).
+//   PLAINL is opaque: only the lexers, tokenize and check reveal its definition.
+//@ spec isDig(c int) bool = c >= '0' && c <= '9'
+//@ spec plainCh(c int) bool = isDig(c) || (c >= 'a' && c <= 'z') || (c >= 'A' && c <= 'Z') || c == '_' || c == ' '
+//@ spec runStartA(a array, lo int, j int) bool = (j == lo || sel(a, j - 1) == ' ') && sel(a, j) != ' '
+//@ spec clipRunA(a array, lo int, hi int, j int, l int) bool = lo <= j && 1 <= l && l <= 31 && j + l <= hi && runStartA(a, lo, j) &&
+//@      (forall k in [j, j + l): sel(a, k) != ' ') && (l == 31 || j + l == hi || sel(a, j + l) == ' ')
+//@ spec PLAINA(in string) bool = forall k in [0, len(in)): plainCh(in[k])
+//@ spec PLAIND(in string) bool = forall j in [off(in), off(in) + len(in)): runStartA(arr(in), off(in), j) && isDig(sel(arr(in), j)) ==>
+//@           (forall k in [j, off(in) + len(in)): (forall m in [j, k): sel(arr(in), m) != ' ') ==> isDig(sel(arr(in), k)) || sel(arr(in), k) == ' ')
+//@ spec PLAINK(in string) bool = forall j in [off(in), off(in) + len(in)): forall l in [1, 32): clipRunA(arr(in), off(in), off(in) + len(in), j, l) && !isDig(sel(arr(in), j)) &&
+//@           (j + l == off(in) + len(in) || sel(arr(in), j + l) == ' ') ==> KWU(str(arr(in), j, l)) == 0
+//@ specopaque PLAINL(in string) bool = PLAINA(in) && PLAIND(in) && PLAINK(in)
+//@ ufun NOPAIR(string) bool
+//@ spec PLAIN(in string) bool = PLAINL(in) && NOPAIR(in)
+//@ spec atBoundary(s *sqliState) bool = s.pos == 0 || s.pos == s.length || s.input[s.pos - 1] == ' ' || s.input[s.pos] == ' '
+//@ specopaque plainTokV(in string, tpos int, tlen int, val string) bool = aliases(val, in[tpos : tpos + tlen]) &&
+//@      clipRunA(arr(in), off(in), off(in) + len(in), off(in) + tpos, tlen)
+//@ spec plainTok(s *sqliState, t *sqliToken) bool = (t.category == sqliTokenTypeBareWord || t.category == sqliTokenTypeNumber) && t.len >= 1 &&
+//@      plainTokV(s.input, t.pos, t.len, t.val)
+//@ spec plainStep(s *sqliState, p int, r int) bool = (s.current.category == sqliTokenTypeBareWord || s.current.category == sqliTokenTypeNumber) &&
+//@      aliases(s.current.val, s.input[s.current.pos : s.current.pos + s.current.len]) &&
+//@      clipRunA(arr(s.input), off(s.input), off(s.input) + s.length, off(s.input) + s.current.pos, s.current.len) && s.current.pos == p && (r == s.length || s.input[r] == ' ') &&
+//@      (forall k in [p, r): s.input[k] != ' ') && s.current.len == min(r - p, 31)
+//@ spec startOK(s *sqliState) bool = s.pos < s.length && s.input[s.pos] != ' ' && (s.pos == 0 || s.input[s.pos - 1] == ' ')
+//@ spec plainWordStart(s *sqliState) bool = PLAINL(s.input) && startOK(s) && !isDig(s.input[s.pos])
+//@ spec plainMode(s *sqliState) bool = PLAINL(s.input) && NOPAIR(s.input) && (s.flags & 6) == 0
+//@ spec plainStats(s *sqliState) bool = s.statsCommentDDX == 0 && s.statsCommentHash == 0
+//@ spec plainAt(s *sqliState, i int, pos int) bool = i < pos ==> plainTok(s, s.tokenVec[i])
+//@ spec winPlain(s *sqliState, pos int) bool = plainAt(s, 0, pos) && plainAt(s, 1, pos) && plainAt(s, 2, pos) && plainAt(s, 3, pos) && plainAt(s, 4, pos) && plainAt(s, 5, pos)
+//@ spec plainStart(s *sqliState) bool = PLAINL(s.input) && s.pos < s.length && s.input[s.pos] != ' ' && (s.pos == 0 || s.input[s.pos - 1] == ' ')
 
 // ---- lexers. Every lexer, started at offset p = s.pos < s.length, returns r with p < r <= length
 // and leaves in *s.current either the zero token (white space) or a faithful token inside [p, r).
@@ -696,6 +734,7 @@ package libinjection
 //@   modifies nothing
 //@   ensures  result == s.pos + 1
 //@   cost     <= 1
+//@   ensures  [C14] @plain s.input[s.pos] == ' ' ==> result == s.pos + 1
 
 //@ func parseOperator1
 //@   requires wfS(s) && s.pos < s.length
@@ -751,12 +790,14 @@ package libinjection
 //@ func parseWord
 //@   requires wfS(s) && s.pos < s.length && wordAccept(s.input[s.pos]) != 1
 //@   modifies s.current.*
+//@   reveal   PLAINL(s.input)
 //@   ensures  [C01 C16 C06] @lex lexOK(s, result)
 //@   loop 1 invariant 0 <= i && i <= s.current.len && wfS(s) && s.current.category == sqliTokenTypeBareWord && s.current.pos == s.pos &&
 //@                    s.current.len == min(length, 31) && aliases(s.current.val, s.input[s.pos : s.pos + s.current.len]) && 1 <= length && s.pos + length <= s.length
 //@   loop 1 decreases s.current.len - i
 //@   cost     <= (result - old(s.pos)) + 5000
 //@   loop 1 invariant [C09] $cost <= 40 + 140 * i
+//@   ensures  [C14] @plain old(PLAINL(s.input) && startOK(s) && !isDig(s.input[s.pos])) ==> plainStep(s, old(s.pos), result) && s.current.category == sqliTokenTypeBareWord
 
 //@ func parseVar
 //@   requires wfS(s) && s.pos < s.length
@@ -769,8 +810,10 @@ package libinjection
 //@ func parseNumber
 //@   requires wfS(s) && s.pos < s.length && ((s.input[s.pos] >= '0' && s.input[s.pos] <= '9') || s.input[s.pos] == '.')
 //@   modifies s.current.category, s.current.pos, s.current.len, s.current.val
+//@   reveal   PLAINL(s.input)
 //@   ensures  [C01 C16 C06] @lex lexOK(s, result)
 //@   loop 1 invariant s.pos <= pos && pos <= s.length && start == s.pos
+//@   loop 1 invariant [C14] forall k in [start, pos): isDig(s.input[k])
 //@   loop 1 decreases s.length - pos
 //@   loop 2 invariant s.pos < pos && pos <= s.length && start == s.pos && (pos - start == 1 ==> s.input[start] == '.')
 //@   loop 2 decreases s.length - pos
@@ -780,6 +823,7 @@ package libinjection
 //@   loop 1 invariant [C09] $cost <= 2 * (pos - s.pos) + 10
 //@   loop 2 invariant [C09] $cost <= 2 * (pos - s.pos) + 12
 //@   loop 3 invariant [C09] $cost <= 2 * (pos - s.pos) + 14
+//@   ensures  [C14] @plain old(PLAINL(s.input) && startOK(s)) && isDig(s.input[old(s.pos)]) ==> plainStep(s, old(s.pos), result) && s.current.category == sqliTokenTypeNumber
 
 //@ func parseTick
 //@   requires wfS(s) && s.pos < s.length
@@ -791,6 +835,7 @@ package libinjection
 //@ func parseUString
 //@   requires wfS(s) && s.pos < s.length && wordAccept(s.input[s.pos]) != 1
 //@   modifies s.current.*, s.pos
+//@   reveal   PLAINL(s.input)
 //@   ensures  [C01 C16 C06] @lex wfS(s) && stepOK(s, old(s.pos), result) && s.current.category != 0
 //@   ensures  [C18 C06] @core old(s.pos) + 2 < s.length && s.input[old(s.pos)+1] == '&' && s.input[old(s.pos)+2] == '\'' ==>
 //@                 s.current.category == sqliTokenTypeString && s.current.pos == old(s.pos) + 3 && s.current.strOpen == 'u' &&
@@ -798,12 +843,14 @@ package libinjection
 //@                 s.current.strClose == (coreEnd(s.input, old(s.pos) + 2, 1, '\'') < s.length ? 'u' : 0) &&
 //@                 result == (coreEnd(s.input, old(s.pos) + 2, 1, '\'') < s.length ? coreEnd(s.input, old(s.pos) + 2, 1, '\'') + 1 : s.length)
 //@   cost     <= 7 * (result - old(s.pos)) + 5020
+//@   ensures  [C14] @plain old(plainWordStart(s)) ==> plainStep(s, old(s.pos), result) && s.current.category == sqliTokenTypeBareWord
 
 //@ spec qClose(c int) int = c == '(' ? ')' : (c == '[' ? ']' : (c == '{' ? '}' : (c == '<' ? '>' : c)))
 //@ spec qEndAt(s *sqliState, k int, c int) bool = k + 1 < s.length && s.input[k] == c && s.input[k+1] == '\''
 //@ func parseQStringCore
 //@   requires wfS(s) && s.pos < s.length && wordAccept(s.input[s.pos]) != 1 && (offset == 0 || offset == 1)
 //@   modifies s.current.*
+//@   reveal   PLAINL(s.input)
 //@   ensures  [C01 C16 C06] @lex lexOK(s, result)
 //@   ensures  [C18 C06] @first_terminator let q = old(s.pos) + offset in
 //@                 (q + 2 < s.length && (s.input[q] == 'q' || s.input[q] == 'Q') && s.input[q+1] == '\'' && s.input[q+2] >= 33) ==>
@@ -814,36 +861,47 @@ package libinjection
 //@                 (s.current.strClose == 0 ==> result == s.length && (forall k in [q + 3, s.length): !qEndAt(s, k, qClose(s.input[q+2]))) &&
 //@                       s.current.len == min(s.length - (q + 3), 31))
 //@   cost     <= 7 * (result - old(s.pos)) + 5020
+//@   ensures  [C14] @plain old(plainWordStart(s)) ==> plainStep(s, old(s.pos), result) && s.current.category == sqliTokenTypeBareWord
 
 //@ func parseQString
 //@   requires wfS(s) && s.pos < s.length && wordAccept(s.input[s.pos]) != 1
 //@   modifies s.current.*
+//@   reveal   PLAINL(s.input)
 //@   ensures  [C01 C16 C06] @lex lexOK(s, result)
 //@   cost     <= 7 * (result - old(s.pos)) + 5024
+//@   ensures  [C14] @plain old(plainWordStart(s)) ==> plainStep(s, old(s.pos), result) && s.current.category == sqliTokenTypeBareWord
 
 //@ func parseNqString
 //@   requires wfS(s) && s.pos < s.length && wordAccept(s.input[s.pos]) != 1
 //@   modifies s.current.*
+//@   reveal   PLAINL(s.input)
 //@   ensures  [C01 C16 C06] @lex lexOK(s, result)
 //@   ensures  [C18 C06] @core old(s.pos) + 2 < s.length && s.input[old(s.pos)+1] == '\'' ==> corePost(s.current, s.input, old(s.pos), 2, '\'', result) && s.current.category == sqliTokenTypeString
 //@   cost     <= 7 * (result - old(s.pos)) + 5030
+//@   ensures  [C14] @plain old(plainWordStart(s)) ==> plainStep(s, old(s.pos), result) && s.current.category == sqliTokenTypeBareWord
 
 //@ func parseXString
 //@   requires wfS(s) && s.pos < s.length && wordAccept(s.input[s.pos]) != 1
 //@   modifies s.current.*
+//@   reveal   PLAINL(s.input)
 //@   ensures  [C01 C16 C06] @lex lexOK(s, result)
+//@   ensures  [C14] @plain old(plainWordStart(s)) ==> plainStep(s, old(s.pos), result) && s.current.category == sqliTokenTypeBareWord
 
 //@ func parseBString
 //@   requires wfS(s) && s.pos < s.length && wordAccept(s.input[s.pos]) != 1
 //@   modifies s.current.*
+//@   reveal   PLAINL(s.input)
 //@   ensures  [C01 C16 C06] @lex lexOK(s, result)
+//@   ensures  [C14] @plain old(plainWordStart(s)) ==> plainStep(s, old(s.pos), result) && s.current.category == sqliTokenTypeBareWord
 
 //@ func parseEString
 //@   requires wfS(s) && s.pos < s.length && wordAccept(s.input[s.pos]) != 1
 //@   modifies s.current.*
+//@   reveal   PLAINL(s.input)
 //@   ensures  [C01 C16 C06] @lex lexOK(s, result)
 //@   ensures  [C18 C06] @core old(s.pos) + 2 < s.length && s.input[old(s.pos)+1] == '\'' ==> corePost(s.current, s.input, old(s.pos), 2, '\'', result) && s.current.category == sqliTokenTypeString
 //@   cost     <= 7 * (result - old(s.pos)) + 5010
+//@   ensures  [C14] @plain old(plainWordStart(s)) ==> plainStep(s, old(s.pos), result) && s.current.category == sqliTokenTypeBareWord
 
 //@ func parseBWord
 //@   requires wfS(s) && s.pos < s.length
@@ -868,6 +926,8 @@ package libinjection
 //@ func (*sqliState).tokenize
 //@   requires wfS(s) && statsOK(s)
 //@   modifies s.pos, s.statsTokens, s.statsCommentDDX, s.statsCommentHash, s.current.*
+//@   reveal   PLAINL(s.input)
+//@   reveal   plainTokV(s.input, s.current.pos, s.current.len, s.current.val)
 //@   ensures  wfS(s) && statsOK(s) && sameScan(s) && old(s.pos) <= s.pos && s.statsFolds == old(s.statsFolds)
 //@   ensures  [C01 C16 C06] @step result ==> stepOK(s, old(s.pos), s.pos) && s.current.category != 0 && s.statsTokens == old(s.statsTokens) + 1
 //@   ensures  [C01 C16 C06] @end !result ==> (s.length == 0 || s.pos == s.length) && s.statsTokens == old(s.statsTokens)
@@ -875,6 +935,8 @@ package libinjection
 //@                 result && corePost(s.current, s.input, 0, 0, ((s.flags & 2) != 0 ? '\'' : '"'), s.pos) && s.current.category == sqliTokenTypeString
 //@   loop 1 invariant wfS(s) && statsOK(s) && sameScan(s) && old(s.pos) <= s.pos && zeroT(s.current) && s.statsTokens == old(s.statsTokens) && s.statsFolds == old(s.statsFolds)
 //@   loop 1 decreases s.length - s.pos
+//@   ensures  [C14] @plain old(plainMode(s) && atBoundary(s) && plainStats(s)) ==> atBoundary(s) && plainStats(s) && (result ==> plainTok(s, s.current))
+//@   loop 1 invariant [C14] old(plainMode(s) && atBoundary(s) && plainStats(s)) ==> atBoundary(s) && plainStats(s)
 
 //@ func (*sqliState).merge
 //@   requires wfT(tokenA) && wfT(tokenB)
@@ -882,6 +944,9 @@ package libinjection
 //@   ensures  wfT(tokenA) && tokenA.pos == old(tokenA.pos)
 //@   ensures  [C01 C08] @class result ==> inSigma(tokenA.category) && tokenA.category != 0 && tokenA.category != sqliTokenTypeComment
 //@   ensures  !result ==> tokenA.category == old(tokenA.category) && tokenA.len == old(tokenA.len) && aliases(tokenA.val, old(tokenA.val))
+//@   justify  readsState2
+//@   defines  [C14] @nopair NOPAIR(s.input) && old(plainTok(s, tokenA) && plainTok(s, tokenB)) ==> !result
+//@   ensures  [C14] @via_lookup result ==> KWU(local(tmp)) != 0
 
 //@ spec toks5wf(s *sqliState) bool = wfT(s.tokenVec[0]) && wfT(s.tokenVec[1]) && wfT(s.tokenVec[2]) && wfT(s.tokenVec[3]) && wfT(s.tokenVec[4])
 
@@ -933,6 +998,12 @@ package libinjection
 //@   loop 4 invariant (foldM1(s, more) < outer(foldM1(s, more)) || (foldM1(s, more) == outer(foldM1(s, more)) && more == outer(more) && (pos < outer(pos) || (pos == outer(pos) &&
 //@                    (foldC(s, pos) < outer(foldC(s, pos)) || (foldC(s, pos) == outer(foldC(s, pos)) && left == outer(left) && foldPhi(s, pos) <= outer(foldPhi(s, pos))))))))
 //@   loop 4 decreases s.length - s.pos + (more ? 1 : 0)
+//@   ensures  [C14] @plain old(plainMode(s) && atBoundary(s) && plainStats(s) && s.statsFolds == 0) ==>
+//@                 result <= 5 && winPlain(s, result) && plainStats(s) && s.statsFolds == 0
+//@   loop 1 invariant [C14] old(plainMode(s) && atBoundary(s) && plainStats(s) && s.statsFolds == 0) ==> atBoundary(s) && plainStats(s)
+//@   loop 2 invariant [C14] old(plainMode(s) && atBoundary(s) && plainStats(s) && s.statsFolds == 0) ==> atBoundary(s) && plainStats(s) && winPlain(s, pos) && s.statsFolds == 0 && lastComment.category == 0
+//@   loop 3 invariant [C14] old(plainMode(s) && atBoundary(s) && plainStats(s) && s.statsFolds == 0) ==> atBoundary(s) && plainStats(s) && winPlain(s, pos) && s.statsFolds == 0 && lastComment.category == 0
+//@   loop 4 invariant [C14] old(plainMode(s) && atBoundary(s) && plainStats(s) && s.statsFolds == 0) ==> atBoundary(s) && plainStats(s) && winPlain(s, pos) && s.statsFolds == 0 && lastComment.category == 0
 
 // ---- fingerprint, decision
 //@ spec evilFP(s *sqliState) bool = len(s.fingerprint) == 1 && s.fingerprint[0] == 'X'
@@ -956,6 +1027,10 @@ package libinjection
 //@                    s.length == len(s.input) && s.flags == (flags == 0 ? 9 : flags) && (length == 6 ==> s.tokenVec[5].category == sqliTokenTypeEvil && i <= 5)
 //@   loop 1 invariant [C01 C08] forall j in [0, i): fp[j] == catAt(s, j) && catAt(s, j) != sqliTokenTypeEvil
 //@   loop 1 decreases length - i
+//@   ensures  [C14] @plain old(PLAIN(s.input)) && (flags & 6) == 0 && flags != 0 ==> plainStats(s) &&
+//@                 (forall i in [0, len(s.fingerprint)): s.fingerprint[i] == sqliTokenTypeBareWord || s.fingerprint[i] == sqliTokenTypeNumber)
+//@   loop 1 invariant [C14] old(PLAIN(s.input)) && (flags & 6) == 0 && flags != 0 ==> plainStats(s) && winPlain(s, length) && length <= 5 &&
+//@                 (forall j in [0, i): fp[j] == sqliTokenTypeBareWord || fp[j] == sqliTokenTypeNumber)
 
 //@ func (*sqliState).blacklist
 //@   requires len(s.fingerprint) == 2 ==> s.fingerprint[0] < 128 && s.fingerprint[1] < 128
@@ -966,10 +1041,11 @@ package libinjection
 //@   defines  [C08 C12] @blk result == BLK(s.fingerprint)
 //@   ensures  [C08 C06] @member len(s.fingerprint) >= 1 ==> (result <==> KWU(local(fp)) == sqliTokenTypeFingerprint)
 //@   ensures  [C08 C06] @built len(s.fingerprint) >= 1 ==> len(local(fp)) == len(s.fingerprint) + 1 && local(fp)[0] == '0' &&
-//@                 (forall j in [0, len(s.fingerprint)): local(fp)[j + 1] == up(s.fingerprint[j]))
+//@                 (forall j in [1, len(s.fingerprint) + 1): local(fp)[j] == up(s.fingerprint[j - 1]))
 //@   loop 1 invariant 0 <= i && i <= length && length == len(s.fingerprint) && len(fp) == i + 1 && fp[0] == '0'
-//@   loop 1 invariant [C01] forall j in [0, i): fp[j + 1] == up(s.fingerprint[j])
+//@   loop 1 invariant [C01] forall j in [1, i + 1): fp[j] == up(s.fingerprint[j - 1])
 //@   loop 1 decreases length - i
+//@   ensures  [C14] @plain (forall i in [0, len(s.fingerprint)): s.fingerprint[i] == sqliTokenTypeBareWord || s.fingerprint[i] == sqliTokenTypeNumber) ==> !result
 
 //@ func (*sqliState).notWhitelist
 //@   requires s.length == len(s.input)
@@ -996,10 +1072,12 @@ package libinjection
 //@ func (*sqliState).check
 //@   requires s.length == len(s.input)
 //@   modifies s.*, s.tokenVec[*].*
+//@   reveal   PLAINL(s.input)
 //@   ensures  aliases(s.input, old(s.input))
 //@   ensures  [C08] @fingerprint result ==> 1 <= len(s.fingerprint) && len(s.fingerprint) <= 5 && (evilFP(s) || fpOK(s)) && BLK(s.fingerprint)
 //@   ensures  [C12 C06] @cascade result == cascade(old(s.input))
 //@   ensures  [C08 C12 C06] @first result ==> cascFP(old(s.input), s.fingerprint)
+//@   ensures  [C14] @plain PLAIN(old(s.input)) ==> !result
 
 //@ func IsSQLi
 //@   modifies nothing
@@ -1008,3 +1086,5 @@ package libinjection
 //@   ensures  [C08 C06] @member result0 ==> BLK(result1)
 //@   ensures  [C12 C06] @cascade result0 == cascade(input)
 //@   ensures  [C08 C12 C06] @first result0 ==> cascFP(input, result1)
+
+//@   ensures  [C14] @plain PLAIN(input) ==> !result0 && len(result1) == 0
